@@ -8,6 +8,7 @@ CONSTANTS
   AllowCorrupt = TRUE
   AllowRuns = FALSE
   Sim = TRUE
+  DynOnly = FALSE
   DynOpts <- FewDynOpts
   LitPalette <- StaleLit
   DistPalette <- StaleDist
